@@ -63,3 +63,11 @@ claim("C33", "mc-generate", "exploration",
       "exhaustive candidate-set x scripted-uniform-draw enumeration (randomness owned through a hook)",
       "Every candidate set of size <=5 (thorough 6) over 8-10 score values incl. -inf and ties, dense and sparse ids, long sets, x 31 (87) scripted uniform draws through the force_target hook, on three ISAs: ArgMax returns a maximal id, Multinomial returns an id of the set with non-zero probability; seeds 0..=255 run twice give identical sequences.",
       "Sets where softmax is undefined (all -inf, +inf, NaN) are run but the probability clause is not judged.")
+claim("C22", "mc-loom", "model_checking",
+      "loom controlled-scheduler exploration of real concurrent Model::run/partial_run calls (preemption bound 2, thorough 3)",
+      "The plan-cache mutex in Graph and the BufferPool primitives are loom's (cfg hook); 2 threads x 2 calls, 3 threads x 1 call (thorough also 2+1+1) over six calls with different input/output keys (each forcing plan-cache replacement), one equal-key pair and a partial_run; every interleaving of the synchronisation operations up to the preemption bound is executed on the real code and each call must return exactly its sequential result; deadlocks and panics are reported by loom / process isolation.",
+      "Runs execute inline on loom threads (no rayon pool), so races inside operator kernels or rayon are invisible; the sequential half (a run is a function of graph, plan and inputs) is C02/C25.")
+claim("C23", "mc-loom", "model_checking",
+      "loom controlled-scheduler exploration of the real BufferPool with a linearizability oracle against a reference pool",
+      "2 threads x <=2 operations and 3 threads x 1 operation over alloc<T>/add/alloc-then-return/PoolRef-drop with capacities around the 128-byte threshold and element types of equal and different size/alignment, on pools pre-seeded with 0-2 buffers; in every schedule up to the preemption bound: capacity >= requested, layout of a reused buffer valid for the requested type, no buffer held twice, hit/alloc counters and pool size balance with the number of buffers added, and the per-operation outcome vector equals that of some sequential order on a best-fit reference pool.",
+      "loom's memory model for its own primitives; double free/leak is inferred from the bookkeeping balance, not from an allocator-level detector.")
